@@ -1,7 +1,7 @@
 """C16 - web service answers and graphs."""
 from mirlib import facts, flow, ir, symx
 from mirlib.pat import ANY, ADT, C, CLOS, F, IDX, K, OP, P, TUP, V, match
-from rules import kernel, semantics, shared, server as S
+from rules import deps, kernel, semantics, shared, server as S
 from rules.kernel import deep_strip, strip, is_call, effects_named, int_of, unloop
 
 EXPLANATION = """
@@ -15,9 +15,11 @@ registration in currently_running is undone on every path to the closure's exit,
 the drop of a guard whose Drop impl removes the key it stores and which lives across the whole computation),
 C16.F-graph (lo_edges from node.lo(), hi_edges from node.hi(); edge sources exclude the terminals; labels by the node's
 own variable; root labels attach name(Var(k)) to ac[k]; the worklist is seeded with all roots and examines both children
-of every member; node, label and edge sets are filtered by the same reachable set), C16.F-pair (each stored AcAndGraph
+of every member; nothing but root handles and children of members ever enters the index sets; node, label and edge sets are
+filtered by the same reachable set; the guard's Drop removes its key on every path except under a poisoned blocking lock), C16.F-pair (each stored AcAndGraph
 pairs the string form of a model with the graph built from the same model and the same rebuilt ADF), C14.A-dto and
-C14.F-replay (storage round trip), S.X-exhaust on the server's collects."""
+C14.F-replay (storage round trip), S.X-exhaust on the server's collects, and - since the stored models are the library's answers - the
+complete rule suites of C01-C05 with their dependency suites (rules/deps.py) for the default library configuration."""
 NOT_DECIDED = "Eventual storage, timeouts and request histories against a database (MongoDB/actix trusted); that the models are the definitional answers needs C01-C05 behaviourally."
 TECHNIQUE = "static analysis: discriminant-guarded path summaries (table agreement across three sites), unwind-aware pairing rule with Drop-impl resolution, accessor/field agreement via expression reconstruction"
 
@@ -261,6 +263,27 @@ def P_running(ctx, server):
                 and bool(flow.find(rem[0][3][0], lambda n_: n_[0] == "field" and n_[2] == "currently_running"))
             # the removal must not be skipped on a reachable normal path of drop (only the poisoned-lock branch may skip)
             ctx.ob(rule, key + ".guard-drop-removes-key", ok, where=drop.where(), expected="Drop::drop removes self.<key field> from state.currently_running", found=[flow.show(r)[:160] for r in rem])
+            # the removal is skipped on no path of drop except when the (blocking) Mutex::lock reports a poisoned lock
+            try:
+                eng = ctx.engine([server])
+                skipped = []
+                n_ret = 0
+                for p_ in eng.summarise(drop):
+                    if p_.end != "return":
+                        continue
+                    n_ret += 1
+                    removes = [e for e in p_.effects if e.get("kind") == "call" and flow.last(e["resolved"]) == "remove" and "HashSet" in e["resolved"]]
+                    if removes:
+                        continue
+                    poisoned = [e for e, v in p_.cond if kernel.deep_strip(e)[0] == "app" and kernel.deep_strip(e)[1] == "discr"
+                                and kernel.is_call(kernel.deep_strip(kernel.deep_strip(e)[2][0]), "Mutex::lock") and kernel.int_of(v) != 0]
+                    if not poisoned:
+                        skipped.append(p_.describe()[:200])
+                ctx.ob(rule, key + ".guard-drop-always-removes", n_ret >= 1 and not skipped, where=drop.where(),
+                       expected="every path of Drop::drop removes the key, except under a poisoned Mutex::lock (a blocking lock: try_lock may skip the removal under contention)",
+                       found=skipped[:2] or "%d returning paths" % n_ret)
+            except Exception as e:  # noqa
+                ctx.cannot(rule, key + ".guard-drop-always-removes", "path summary of Drop::drop", drop.where(), "%s: %s" % (type(e).__name__, e))
             # uses of the constructor
             uses = 0
             for ub in server.all_bodies:
@@ -499,6 +522,7 @@ def F_graph(ctx, server):
                 for a in acc:
                     ins.add(flow.last(a))
     ctx.ob(rule, "worklist.both-children", ins == {"lo", "hi"}, where=b.where(), expected="both lo and hi of every member are examined", found=sorted(ins))
+    reach_only_roots_and_children(ctx, server, rule, b, d)
     seed = None
     for bb, t, ci in b.calls():
         e = d.expr_call(t, bb)
@@ -513,6 +537,94 @@ def F_graph(ctx, server):
     acsel = flow.expand_phi(d, seed) if seed else None
     ok = acsel is not None and bool(flow.find(acsel, lambda n_: n_[0] == "field" and n_[2] == "ac")) and bool(flow.find(acsel, lambda n_: n_[0] == "downcast" and n_[2] == "Some"))
     ctx.ob(rule, "ac-choice", ok, where=b.where(), expected="ac = given model, or adf.ac when None", found=flow.show(acsel)[:160] if acsel else None)
+
+
+def reach_only_roots_and_children(ctx, server, rule, b, d):
+    """'exactly the nodes reachable from the roots', the 'only' half: every element that enters one of the index sets of the worklist is a root handle
+    (ac.iter().map(|t| t.value())) or the lo/hi child of nodes[i] for a member i of one of the sets; sets are otherwise created empty or as unions of each other"""
+    S_ = set(l for l, n in b.local_names().items() if ir.ty_str(b.locals[l]["ty"]).replace(" ", "").startswith(("std::collections::HashSet<usize", "HashSet<usize"))
+             or "HashSet<usize" in ir.ty_str(b.locals[l]["ty"]).replace(" ", ""))
+    ctx.floor(rule, "index sets of the reachability worklist", len(S_), 1)
+
+    def in_S(e):
+        e = strip_ref(e)
+        return e[0] == "phi" and e[1] in S_ or e[0] == "local" and e[1] in S_
+
+    def strip_ref(e):
+        while e[0] in ("ref", "deref", "copy", "move") and len(e) > 1 and isinstance(e[1], tuple):
+            e = e[1]
+        while e[0] == "call" and flow.last(e[2]) in ("deref", "borrow", "as_ref", "clone") and e[3]:
+            e = e[3][0]
+        return e
+
+    def set_expr_ok(e):
+        """empty constructor, or an iterator pipeline over members of S_ only"""
+        e = strip_ref(e)
+        if in_S(e):
+            return True
+        if e[0] != "call":
+            return False
+        nm = flow.last(e[2])
+        if "HashSet" in e[1] and nm in ("new", "default", "with_capacity"):
+            return True
+        if nm in ("collect", "copied", "cloned", "iter", "into_iter", "union", "chain", "from_iter"):
+            args = [a for a in e[3] if strip_ref(a)[0] not in ("const",)]
+            return bool(args) and all(set_expr_ok(a) for a in args)
+        return False
+
+    def roots_expr_ok(e):
+        m = match(strip_ref(e), C("collect", C("map", C("iter", V("ac")), CLOS("c"))))
+        if m is None:
+            return False
+        cr = flow.closure_ret(server, server.body(m["c"]))
+        return match(cr, C("Term::value", P(2))) is not None
+
+    def child_ok(x):
+        m = match(strip_ref(x), C("Term::value", C("BddNode::lo", V("n")))) or match(strip_ref(x), C("Term::value", C("BddNode::hi", V("n"))))
+        if m is None:
+            return False
+        n = strip_ref(m["n"])
+        if not (n[0] == "call" and flow.last(n[2]) == "index" and flow.show(n[3][0]).endswith("bdd.nodes")):
+            return False
+        i = strip_ref(n[3][1])
+        # member of one of the sets: item of an iteration over a set in S_
+        src = [y for y in flow.find(i, lambda q: in_S(q))]
+        its = [y for y in flow.find(i, lambda q: q[0] == "call" and flow.last(q[2]) == "next")]
+        return bool(src) and bool(its)
+
+    n_defs = 0
+    bad = []
+    for l in sorted(S_):
+        for bb, i, s_ in b.statements():
+            if s_["k"] == "assign" and s_["pl"]["l"] == l and not s_["pl"]["p"]:
+                e = d.expr_rvalue(s_["rv"])
+                n_defs += 1
+                if not (set_expr_ok(e) or roots_expr_ok(e)):
+                    bad.append("%s := %s" % (b.local_names().get(l), flow.show(e)[:160]))
+        for bb, t, ci in b.calls():
+            if t.get("dest") and t["dest"]["l"] == l and not t["dest"]["p"]:
+                e = d.expr_call(t, bb)
+                n_defs += 1
+                if not (set_expr_ok(e) or roots_expr_ok(e)):
+                    bad.append("%s := %s" % (b.local_names().get(l), flow.show(e)[:160]))
+    n_ins = 0
+    for bb, t, ci in b.calls():
+        pth = ir.callee_path(ci) or ""
+        if "HashSet" not in pth or "{closure" in pth:
+            continue
+        e = d.expr_call(t, bb)
+        if e[0] != "call" or not e[3] or not in_S(e[3][0]):
+            continue
+        nm = flow.last(pth)
+        if nm == "insert":
+            n_ins += 1
+            if not child_ok(e[3][1]):
+                bad.append("insert(%s)" % flow.show(e[3][1])[:160])
+        elif nm in ("extend", "remove", "retain", "clear", "drain", "take", "replace", "get_or_insert_with"):
+            bad.append("%s on an index set (not a recognised worklist step)" % nm)
+    ctx.ob(rule, "worklist.only-roots-and-children", not bad and n_defs >= 2 and n_ins >= 2, where=b.where(),
+           expected="index sets are created empty, from the root handles, or as unions of each other; inserts add lo/hi of nodes[member] only",
+           found=bad[:3] or "%d set definitions, %d inserts" % (n_defs, n_ins))
 
 
 def term_consts(e):
@@ -539,3 +651,5 @@ def check(ctx):
     ctx.cfg = "lib@default"
     lib = ctx.load(facts.Config("lib"))
     C14.F_replay(ctx, lib)
+    # 'the models stored and returned are exactly the definitional answers': the library-level suites of every strategy the service offers
+    deps.library_semantics(ctx, [facts.Config("lib")])
